@@ -205,6 +205,8 @@ def per_member_verified(F, S):
 
 def check(F, run, tier):
     S = Summaries(F)
+    from ..rules_archive import noexcept_obligations
+    noexcept_obligations(F, S, run)
     run.declined = DECLINED
     from ..rules_valid import verifier_arguments
     _va, _vn = verifier_arguments(F)
